@@ -129,6 +129,12 @@ func (cs *clientState) capture() chan unblockReason {
 	defer cs.captureMu.Unlock()
 
 	atomic.StoreInt32(&cs.blocked, CS_CAPTURED)
+
+	// A connection that was closed or killed just before this point has already had its
+	// unblock call, which found nothing to unblock: the wait that begins now must not outlive it.
+	if cs.client.IsCloseRequested() && atomic.CompareAndSwapInt32(&cs.unblockPending, 0, 1) {
+		cs.unblockCh <- unblockReason{}
+	}
 	return cs.unblockCh
 }
 
